@@ -32,7 +32,7 @@ import (
 
 func init() { core.Register("C18", &core.Check{Run: run, Replay: replay}) }
 
-var gaps = []string{" ", "\n", "\r", "\r\n", ",", " #é\n", "\t", "  ", "\n\n"}
+var gaps = []string{" ", "\n", "\r", "\r\n", ",", " #é\n", "\t", "  ", "\n\n", "#é\r\n"}
 
 // lineCol computes the 1-based line and the 1-based column (in bytes and in code points)
 // of a byte offset, independently of the library: LF, CR and CRLF each end a line.
@@ -281,7 +281,7 @@ var fieldQueries = []fieldQuery{
 func run(c *core.Ctx) {
 	probeColumns()
 	c.R.Bounds["column_convention"] = []string{"undetermined", "bytes", "code points"}[colMode]
-	c.R.Rule = "case = (erroneous request, layout): (a) every rejected text of the token enumeration with every assignment of one (quick) / two (thorough) non-space gaps among 9 gap kinds (LF, CR, CRLF, comma, comment with a multi-byte character, tab, double space, blank line); (c) every single failing field of 5 queries (aliases, lists, lists of lists, non-null propagation, fragments, paths up to 6 segments) under every single-gap layout; (d) every pair of failing fields of these queries; non-trivial = rejected texts / failing fields; distinct by rendered text"
+	c.R.Rule = "case = (erroneous request, layout): (a) every rejected text of the token enumeration with every assignment of one (quick) / two (thorough) non-space gaps among 10 gap kinds (LF, CR, CRLF, comma, comment with a multi-byte character ended by LF and by CRLF, tab, double space, blank line); (c) every single failing field of 5 queries (aliases, lists, lists of lists, non-null propagation, fragments, paths up to 6 segments) under every single-gap layout; (d) every pair of failing fields of these queries; non-trivial = rejected texts / failing fields; distinct by rendered text"
 	c.R.Assumptions = []string{"M-syntax determines the first token at which the text stops being a prefix of a document", "line/column recomputed independently: LF, CR, CRLF end a line; the column unit (bytes or code points) is not fixed by the property: it is probed once on `\"\u00e9\" }` and then required everywhere", "Go toolchain"}
 	qi := 0
 	if !c.Quick() {
